@@ -3,11 +3,11 @@ CONSTANTS
   Req = {"r1", "r2", "r3"}
   Codes = {"cA", "cB", "cBx"}
   Tokens = {"tA"}
-  Presenters = {"A", "B", "Bbad"}
+  Presenters = {"A", "B"}
   Redirects = {"same", "other"}
   Verifiers = {"right", "wrong", "empty"}
   Chain = TRUE
-  Bogus = TRUE
+  Bogus = FALSE
   Focus = FALSE
   Impl = "fixed"
 INVARIANTS TypeOK SingleUse PKCEOnly
